@@ -22,7 +22,7 @@ CHUNK = 64
 SHRINK_LISTS = ("ops",)
 PROBES = {"C14": ["second-solve", "solve-at-stale-clock", "solve-after-jump", "solve-after-syscall", "ltv", "lti",
                   "ns=1", "batch>1", "T=1", "u:none", "u:zeros", "u:random", "u:prev", "u:prev-shifted-in-place", "x_init:non-contiguous", "x_init:expanded", "x_init:zero", "x_init:view-of-previous-plan", "solve:no_grad", "solve:split-backward-forward", "u:random-far", "two-lqr-share-system",
-                  "mpc-linear", "mpc-nonlinear", "nls-time-dependent", "mpc-nonmonotone", "unstable-A", "cond>1e4", "system:deepcopied", "dt!=1", "p=0", "Q/p:mixed-forms", "ltv:property-only"]}
+                  "mpc-linear", "mpc-nonlinear", "nls-time-dependent", "mpc-nonmonotone", "unstable-A", "cond>1e4", "system:deepcopied", "dt!=1", "p=0", "Q/p:mixed-forms", "ltv:property-only", "ltv:periodic-within-horizon", "u:prev-perturbed"]}
 import os
 TS = float(os.environ.get("PPSIM_TOLSCALE", "1"))
 TOL_FEAS = 1e-11 * TS       # relative
@@ -47,6 +47,8 @@ def generate(seed, tier, prop="C14"):
            "dt": r.choice([1, 1, 0.05, 2]) if kind == "LTI" else 1, "pzero": r.random() < 0.12}
     cfg["ptv"] = cfg["Qtv"] if r.random() < 0.65 else (not cfg["Qtv"])
     cfg["prop_ltv"] = kind == "LTV" and r.random() < 0.3
+    if kind == "LTV" and r.random() < 0.3:
+        cfg["periodic"] = True; cfg["N"] = r.choice([2, 3])      # a periodic system: the matrices repeat within the horizon
     ro = rng.stream(seed, "ops")
     ops = []
     n = ro.randint(1, 8 if tier == "thorough" else 6)
@@ -54,7 +56,7 @@ def generate(seed, tier, prop="C14"):
         x = ro.random()
         if i == 0 or x < 0.55:
             o = {"id": i, "op": "solve", "lqr": ro.randint(0, 1) if cfg["two"] else 0,
-                 "u": ro.choice(["none", "zeros", "random", "random-far", "prev", "prev-shifted-in-place"]),
+                 "u": ro.choice(["none", "zeros", "random", "random-far", "prev", "prev-shifted-in-place", "prev-perturbed"]),
                  "how": ro.choice(["call", "call", "call", "no_grad", "split"])}
             if kind == "NLS" or (B == 1 and ro.random() < 0.15):      # MPC: single batch, as documented
                 o["op"] = "mpc"
@@ -128,7 +130,9 @@ def execute(plan, prop, out, tr):
     nsc = ns + nc
     dt = torch.float64
     tr.ev("plan", c)
-    N = max(c["N"], T)
+    N = max(1, c["N"]) if c.get("periodic") else max(c["N"], T)
+    if c.get("periodic") and kind == "LTV" and N < T:
+        out.probe("ltv:periodic-within-horizon")
     # ---- system
     if kind == "NLS":
         W1 = rng.randn(s, ("W1",), (ns, ns), dt, 0.6); W2 = rng.randn(s, ("W2",), (ns, ns), dt, 0.6)
@@ -208,7 +212,8 @@ def execute(plan, prop, out, tr):
         As, Bs, cs = [], [], []
         for t in range(T):
             if kind == "LTV":
-                As.append(npd(A[b, t])); Bs.append(npd(Bm[b, t])); cs.append(npd(c1[b, t]) if c1 is not None else np.zeros(ns))
+                tn = t % N
+                As.append(npd(A[b, tn])); Bs.append(npd(Bm[b, tn])); cs.append(npd(c1[b, tn]) if c1 is not None else np.zeros(ns))
             else:
                 As.append(npd(A[b])); Bs.append(npd(Bm[b])); cs.append(npd(c1[b]) if c1 is not None else np.zeros(ns))
         return As, Bs, cs
@@ -269,6 +274,8 @@ def execute(plan, prop, out, tr):
             u0 = rng.randn(s, ("u0", i), (B, T, nc), dt, 1e3)       # a nominal far from the optimum
         elif uk == "prev" and j in prev_u:
             u0 = prev_u[j].clone()
+        elif uk == "prev-perturbed" and j in prev_u:
+            u0 = prev_u[j].clone() + 1e-4 * rng.randn(s, ("upert", i), (B, T, nc), dt)      # a warm start close to the last plan
         elif uk == "prev-shifted-in-place" and j in prev_obj and op != "mpc":
             # receding horizon: the very tensor the last solve returned, shifted by one step in place
             u0 = prev_obj[j]
